@@ -84,7 +84,7 @@ func (m *monitor) syncCase(idx int) {
 	mk := func(kind string, att, fin, sig uint64, poison string) served {
 		p := &updParams{kind: kind, fork: forks[rng.Intn(3)], att: att, fin: fin, sig: sig, bits: majority(),
 			signer: w.committeeAt(base, nC, period(sig)), next: w.committeeAt(base, nC, period(att)+1), curInState: w.committeeAt(base, nC, period(att)),
-			forkVersion: w.forkVersion, genesisRoot: w.genesisRoot, domainType: domainSyncCommittee}
+			forkVersion: w.fvAt(sig), genesisRoot: w.genesisRoot, domainType: domainSyncCommittee}
 		if poison != "" && (!corrApplies(poison, kind) || !w.corruptPre(rng, poison, p, base, nC)) {
 			poison = ""
 		}
